@@ -22,6 +22,7 @@ class Violation:
 class BaseProp:
     coq_targets = []            # Proofs/*.vo needed by Props/<id>.v
     extra_model_targets = []
+    extra_imports = ''
     technique = 'Coq proof over the generated model + bit-exact correspondence'
     trusted_base = [
         'Coq 8.16.1 kernel and vm_compute (primitive floats / Uint63 for the executable binary64 instance); no native_compute',
@@ -134,7 +135,7 @@ class BaseProp:
         self.impl_results = impl
         self.case_by_id = {c.id: c for c in cases}
         mcases = [c for c in cases if self.model_applicable(c)]
-        model, mstats = vlib.run_model(mcases, self.pid, oracle_exe=exe)
+        model, mstats = vlib.run_model(mcases, self.pid, extra_imports=self.extra_imports, oracle_exe=exe)
         self.cov['model_stats'] = mstats
         agree = dis = merr = 0
         for c in mcases:
